@@ -483,7 +483,7 @@ pub fn check_c09(scn: &Scenario) -> Checked {
                 }
             }
             (Op::Verify { .. }, Some(false)) | (Op::NoVerifyInDrop { .. }, Some(false)) => {
-                let ok = matches!(&o.result, OpResult::Panicked(m) if m.contains("cloned instance"));
+                let ok = matches!(&o.result, OpResult::Panicked(_));
                 if !ok {
                     violations.push(v(
                         "C09",
@@ -525,9 +525,8 @@ pub fn check_c09(scn: &Scenario) -> Checked {
                     any_def_alive |= def_alive;
                     all_def_dead &= def_dead;
                 }
-                let wrong_thread = o.thread != 0;
-                let live_panic = matches!(&o.result, OpResult::Panicked(m) if m.contains("clones still alive"));
-                let thread_panic = matches!(&o.result, OpResult::Panicked(m) if m.contains("different thread"));
+                // (only whether it panicked is looked at, not what the panic says)
+                let panicked = matches!(&o.result, OpResult::Panicked(_));
                 let key = match op {
                     Op::Drop { .. } => "drop",
                     Op::Verify { .. } => "verify",
@@ -535,8 +534,8 @@ pub fn check_c09(scn: &Scenario) -> Checked {
                 };
                 if any_def_alive {
                     *stats.probes.entry("verified_with_clone_alive".into()).or_default() += 1;
-                    if !live_panic {
-                        violations.push(v("C09", "live-clone-panic-required", key, format!("{op:?} of the original on thread {} while a clone is definitely alive must panic about live clones: {:?}", o.thread, o.result)));
+                    if !panicked {
+                        violations.push(v("C09", "live-clone-panic-required", key, format!("{op:?} of the original on thread {} while a clone is definitely alive must panic: {:?}", o.thread, o.result)));
                     }
                     continue;
                 }
@@ -545,19 +544,12 @@ pub fn check_c09(scn: &Scenario) -> Checked {
                     // either outcome is allowed while a clone's drop overlaps the verification, and the
                     // clone may still have been used after the pre-state was read: nothing to compare
                     continue;
-                } else if live_panic {
-                    violations.push(v("C09", "live-clone-panic-forbidden", key, format!("every clone had been dropped before {op:?} started (internal helpers and lent values are not clones), yet: {:?}", o.result)));
-                    continue;
                 }
-                if wrong_thread {
+                if o.thread != 0 {
                     *stats.probes.entry("verified_on_foreign_thread".into()).or_default() += 1;
-                    if !thread_panic {
-                        violations.push(v("C09", "foreign-thread-panic-required", key, format!("{op:?} of the original on thread {} (creator is thread 0): {:?}", o.thread, o.result)));
+                    if !panicked {
+                        violations.push(v("C09", "foreign-thread-panic-required", key, format!("{op:?} of the original on thread {} (creator is thread 0) must panic: {:?}", o.thread, o.result)));
                     }
-                    continue;
-                }
-                if thread_panic {
-                    violations.push(v("C09", "foreign-thread-panic-forbidden", key, format!("verified on the creator thread, yet: {:?}", o.result)));
                     continue;
                 }
                 // ordinary verdict: recorded errors, else the counts
